@@ -29,6 +29,10 @@ fail-after)  cat "$FAKE_LISTING"; exit 1 ;;
 fail-partial) head -c "$FAKE_K" "$FAKE_LISTING"; exit 1 ;;
 signal-partial) head -c "$FAKE_K" "$FAKE_LISTING"; kill -KILL $$ ;;
 block)       head -c "$FAKE_K" "$FAKE_LISTING"; echo ready > "$FAKE_FIFO"; exec sleep 1000 ;;
+pause)       # emit K bytes, report, wait for the release file, emit the rest, exit with FAKE_EXIT
+             head -c "$FAKE_K" "$FAKE_LISTING"; echo ready > "$FAKE_FIFO"
+             while [ ! -e "$FAKE_RELEASE" ]; do sleep 0.02; done
+             tail -c +$(($FAKE_K + 1)) "$FAKE_LISTING"; exit "$FAKE_EXIT" ;;
 *)           echo "fake go: no mode" >&2; exit 65 ;;
 esac
 `
@@ -86,6 +90,7 @@ type ToolRun struct {
 	Strace       []string // extra strace arguments (fault injection); empty = no strace
 	Stdin        string
 	Timeout      time.Duration
+	Exit         int // mode pause: exit status of the fake tool after it emitted everything
 }
 
 type ToolResult struct {
@@ -120,16 +125,7 @@ func (th *ToolHome) Run(tr ToolRun) (*ToolResult, error) {
 			return nil, err
 		}
 	}
-	inner := tr.Argv
-	if len(tr.Strace) > 0 {
-		inner = append(append([]string{"/usr/bin/strace", "-o", "/dev/null"}, tr.Strace...), tr.Argv...)
-	}
-	script := `/bin/mount --bind "$VERIF_HOME" "$VERIF_REALHOME" || exit 70; PATH="$VERIF_PATH"; export PATH; exec "$@"`
-	args := append([]string{"-m", "--propagation", "private", "/bin/sh", "-c", script, "sh"}, inner...)
-	cmd := exec.Command("/usr/bin/unshare", args...)
-	cmd.Env = append(os.Environ(), "VERIF_HOME="+th.Home, "VERIF_REALHOME="+homeDir(), "VERIF_PATH="+path, "HOME="+homeDir(),
-		"FAKE_MODE="+tr.FakeMode, "FAKE_LISTING="+tr.Listing, fmt.Sprintf("FAKE_K=%d", tr.K), "FAKE_FIFO="+fifo)
-	cmd.Env = append(cmd.Env, tr.Env...)
+	cmd := th.command(tr, path, fifo, "")
 	var so, se bytes.Buffer
 	cmd.Stdout, cmd.Stderr = &so, &se
 	if tr.Stdin != "" {
@@ -205,6 +201,124 @@ func (th *ToolHome) Run(tr ToolRun) (*ToolResult, error) {
 	}
 	res.Stdout, res.Stderr = so.String(), se.String()
 	return res, nil
+}
+
+// command builds the namespaced command of one run.
+func (th *ToolHome) command(tr ToolRun, path, fifo, release string) *exec.Cmd {
+	inner := tr.Argv
+	if len(tr.Strace) > 0 {
+		inner = append(append([]string{"/usr/bin/strace", "-o", "/dev/null"}, tr.Strace...), tr.Argv...)
+	}
+	script := `/bin/mount --bind "$VERIF_HOME" "$VERIF_REALHOME" || exit 70; PATH="$VERIF_PATH"; export PATH; exec "$@"`
+	args := append([]string{"-m", "--propagation", "private", "/bin/sh", "-c", script, "sh"}, inner...)
+	cmd := exec.Command("/usr/bin/unshare", args...)
+	cmd.Env = append(os.Environ(), "VERIF_HOME="+th.Home, "VERIF_REALHOME="+homeDir(), "VERIF_PATH="+path, "HOME="+homeDir(),
+		"FAKE_MODE="+tr.FakeMode, "FAKE_LISTING="+tr.Listing, fmt.Sprintf("FAKE_K=%d", tr.K), "FAKE_FIFO="+fifo)
+	cmd.Env = append(cmd.Env, tr.Env...)
+	cmd.Env = append(cmd.Env, "FAKE_RELEASE="+release, fmt.Sprintf("FAKE_EXIT=%d", tr.Exit))
+	return cmd
+}
+
+// PausedRun is a run whose fake tool stops after K bytes until it is released (mode pause): several of them
+// can be interleaved by the caller.
+type PausedRun struct {
+	th      *ToolHome
+	cmd     *exec.Cmd
+	so, se  bytes.Buffer
+	done    chan error
+	ready   chan struct{}
+	release string
+	fifo    string
+	ended   bool
+	Killed  bool
+}
+
+// StartPaused starts the command with FAKE_MODE=pause.
+func (th *ToolHome) StartPaused(tr ToolRun) (*PausedRun, error) {
+	n := atomic.AddInt64(&toolSeq, 1)
+	pr := &PausedRun{th: th, done: make(chan error, 1), ready: make(chan struct{}),
+		release: filepath.Join(th.Dir, fmt.Sprintf("release-%d", n)), fifo: filepath.Join(th.Dir, fmt.Sprintf("fifo-%d", n))}
+	if err := syscall.Mkfifo(pr.fifo, 0o644); err != nil {
+		return nil, err
+	}
+	tr.FakeMode = "pause"
+	pr.cmd = th.command(tr, th.Bin+":/usr/bin:/bin", pr.fifo, pr.release)
+	pr.cmd.Stdout, pr.cmd.Stderr = &pr.so, &pr.se
+	pr.cmd.SysProcAttr = &syscall.SysProcAttr{Setpgid: true}
+	pr.cmd.WaitDelay = 2 * time.Second
+	if err := pr.cmd.Start(); err != nil {
+		return nil, err
+	}
+	go func() { pr.done <- pr.cmd.Wait() }()
+	go func() {
+		if f, err := os.OpenFile(pr.fifo, os.O_RDONLY, 0); err == nil {
+			buf := make([]byte, 16)
+			if n, _ := f.Read(buf); n > 0 {
+				close(pr.ready)
+			}
+			f.Close()
+		}
+	}()
+	return pr, nil
+}
+
+// WaitReady waits until the fake tool has emitted its K bytes and the cache directory has settled.
+// false: the command ended (or the watchdog fired) without the tool ever pausing.
+func (pr *PausedRun) WaitReady(timeout time.Duration) bool {
+	select {
+	case <-pr.ready:
+	case err := <-pr.done:
+		pr.done <- err
+		pr.ended = true
+		go func() { // unblock the fifo reader
+			if f, err := os.OpenFile(pr.fifo, os.O_WRONLY|syscall.O_NONBLOCK, 0); err == nil {
+				f.Close()
+			}
+		}()
+		return false
+	case <-time.After(timeout):
+		return false
+	}
+	last := fmt.Sprint(pr.th.CacheFiles())
+	stable := 0
+	for i := 0; i < 200 && stable < 4; i++ {
+		time.Sleep(5 * time.Millisecond)
+		now := fmt.Sprint(pr.th.CacheFiles())
+		if now == last {
+			stable++
+		} else {
+			stable, last = 0, now
+		}
+	}
+	return true
+}
+
+// Release lets the fake tool emit the rest and exit.
+func (pr *PausedRun) Release() { os.WriteFile(pr.release, nil, 0o644) }
+
+// Kill SIGKILLs the whole process group of the run.
+func (pr *PausedRun) Kill() {
+	pr.Killed = true
+	syscall.Kill(-pr.cmd.Process.Pid, syscall.SIGKILL)
+	pr.cmd.Process.Kill()
+}
+
+// Wait collects the result.
+func (pr *PausedRun) Wait(timeout time.Duration) *ToolResult {
+	res := &ToolResult{Killed: pr.Killed}
+	select {
+	case <-pr.done:
+	case <-time.After(timeout):
+		res.TimedOut = true
+		syscall.Kill(-pr.cmd.Process.Pid, syscall.SIGKILL)
+		pr.cmd.Process.Kill()
+		<-pr.done
+	}
+	if ws, ok := pr.cmd.ProcessState.Sys().(syscall.WaitStatus); ok {
+		res.ExitCode, res.Signaled = ws.ExitStatus(), ws.Signaled()
+	}
+	res.Stdout, res.Stderr = pr.so.String(), pr.se.String()
+	return res
 }
 
 // HostileEnvs are environments that must not change what the command-line tools do.
